@@ -437,9 +437,14 @@ class Recorder:
             logging.disable(logging.NOTSET)
         fl = b.function_logger
         n = fl.Xn + 1
+
+        def col(a):     # first column of a log table, whatever its rank (the recorder must not fail where the optimiser did not)
+            a = np.asarray(a)
+            return a.reshape(a.shape[0], -1)[:n, 0].tolist()
+        tr["log_shapes"] = {k: list(np.shape(getattr(fl, k))) for k in ("X", "X_orig", "Y", "Y_orig", "S", "n_evals") if getattr(fl, k, None) is not None}
         tr["final"] = dict(snap=self.snap(b), ncalls=self.ncall, level=int(b.optim_state["uncertainty_handling_level"]),
-                           logX=fl.X[:n].tolist(), logXo=fl.X_orig[:n].tolist(), logY=fl.Y[:n, 0].tolist(),
-                           logS=(fl.S[:n, 0].tolist() if fl.noise_flag else None), n_evals=fl.n_evals[:n, 0].tolist(),
+                           logX=fl.X[:n].tolist(), logXo=fl.X_orig[:n].tolist(), logY=col(fl.Y),
+                           logS=(col(fl.S) if fl.noise_flag else None), n_evals=col(fl.n_evals),
                            max_fun_evals=_f(b.options["max_fun_evals"]), nfs=_f(b.options["noise_final_samples"]),
                            hist={k: ([None if v is None else (_l(v) if k in ("u", "x") else _f(v)) for v in b.iteration_history.get(k)]
                                      if b.iteration_history.get(k) is not None else None)
